@@ -670,6 +670,8 @@ var c04Corpus = [][]string{
 
 func runC04(c *Ctx) {
 	runModeSyntax(c)
+	// one client over three connections (renamed by the welcome, by NICK, back): it tracks itself correctly on each
+	c.run("idreconnect", map[string]string{"scenario": "three connections, own JOIN/PART on each"})
 	r := c.R
 	r.Rule = "random walks of a simulated network (5 other users, up to 3 channels, RFC1459-case-variant spellings in parameters, nick changes incl. case-only and of the client itself, multi-prefix NAMES with and without userhost-in-names split over several 353 lines, " +
 		"extended-join, 352/354 WHO replies, MODE strings mixing +/- over all four CHANMODES classes and PREFIX modes, TOPIC/AWAY/ACCOUNT/CHGHOST/account-tag traffic, 001 renaming the client, 004/005/MOTD): the real client vs its model (lines, dumps) " +
